@@ -34,6 +34,7 @@ let parse_op (w : string) : (op * string) option =
     else if pre "fc" then (match args (after w 2) with ([c], _) -> Some (CAlive (n (int_of_string c), true), "fc") | _ -> None)
     else if pre "n" then (match args (after w 1) with ([c], _) -> Some (CNew (n (int_of_string c)), "n") | _ -> None)
     else if pre "d" then (match args (after w 1) with ([c], _) -> Some (CDel (n (int_of_string c)), "d") | _ -> None)
+    else if pre "b" then (match args (after w 1) with ([c; sm; nm], t) -> Some (CAdd2 (n t, n (int_of_string c), z_of_string sm, z_of_string nm), "b") | _ -> None)
     else if pre "a" then (match args (after w 1) with ([c; v], t) -> Some (CAdd (n t, n (int_of_string c), z_of_string v), "a") | _ -> None)
     else if pre "r" then (match args (after w 1) with ([c], _) -> Some (CRead (n (int_of_string c)), "r") | _ -> None)
     else if pre "z" then (match args (after w 1) with ([c], _) -> Some (CReset (n (int_of_string c)), "z") | _ -> None)
